@@ -7,6 +7,7 @@ A *recipe* is a JSON-able nested list, e.g. ['lscal', 1.5, ['trans', [1, 2, 3], 
 Vectors inside recipes are flat lists of floats (C-order, product spaces concatenated).
 """
 from fractions import Fraction
+import math
 
 import numpy as np
 
@@ -250,6 +251,27 @@ def doc_value(r, S, x):
     derived nodes by their formula, leaves by calling the real leaf class."""
     k = r[0]
     sp = S.space
+    if k in ('l1', 'l2', 'l2sq', 'const', 'zero', 'lin') or (k == 'huber' and not S.is_pspace):
+        # documented closed forms of the simplest built-ins, evaluated independently
+        xs = S.flat(x)
+        if k == 'l1':
+            return math.fsum(w * abs(t) for w, t in zip(S.w, xs))
+        if k == 'l2sq':
+            return math.fsum(w * t * t for w, t in zip(S.w, xs))
+        if k == 'l2':
+            return math.sqrt(math.fsum(w * t * t for w, t in zip(S.w, xs)))
+        if k == 'const':
+            return float(r[1])
+        if k == 'zero':
+            return 0.0
+        if k == 'lin':
+            return math.fsum(w * b * t for w, b, t in zip(S.w, r[1], xs)) + float(r[2])
+        if k == 'huber':
+            g = float(r[1])
+            if g == 0:
+                return math.fsum(w * abs(t) for w, t in zip(S.w, xs))
+            return math.fsum(w * (abs(t) - g / 2 if abs(t) >= g else t * t / (2 * g))
+                             for w, t in zip(S.w, xs))
     if k in LEAVES and k != 'sepsum':
         return float(build(r, S)(x))
     if k == 'sepsum':
